@@ -127,7 +127,6 @@ void run_rlin(unsigned seed) {
             }
             if (stmt >= 10 && stmt <= 11) for (size_t i = 0; i < N; ++i) { x[i * N + i] = buf[i * N + i] = O.data()[i * N + i] = (T)(3 * N + (i % 3)); }   // well conditioned
             TensorMap<T,N,N> m(buf), m2(buf2);
-            TensorMap<const T,N,N> cm(buf);
             auto mm = [&](const std::vector<T>& p, const std::vector<T>& q, size_t i, size_t j) { T r = 0; for (size_t k = 0; k < N; ++k) r += p[i * N + k] * q[k * N + j]; return r; };
             const char* name = ""; const T* got = buf; Tensor<T,N,N> R; bool cmp_owning = false;
             switch (stmt) {
@@ -146,10 +145,7 @@ void run_rlin(unsigned seed) {
                     got = R.data(); have_want = false; cmp_owning = true; break;
                 case 12: name = "R=einsum<01,12>(m,B)"; R = einsum<Index<0,1>,Index<1,2>>(m, B); got = R.data(); for (size_t i = 0; i < N; ++i) for (size_t j = 0; j < N; ++j) want[i * N + j] = mm(x, b, i, j); break;
                 case 13: name = "m=einsum<01,12>(A,B)"; m = einsum<Index<0,1>,Index<1,2>>(A, B); for (size_t i = 0; i < N; ++i) for (size_t j = 0; j < N; ++j) want[i * N + j] = mm(a, b, i, j); break;
-                case 14: name = "R=cm+B; cm(i,j); cm(seq,all) (map of a const buffer)"; { R = cm + B; got = R.data(); for (size_t p = 0; p < N * N; ++p) want[p] = x[p] + b[p];
-                    Tensor<T,(N + 1) / 2,N> V = cm(seq(0, (int)N, 2), all);
-                    for (size_t i = 0; i < (N + 1) / 2; ++i) for (size_t j = 0; j < N; ++j) if (V(i, j) != x[2 * i * N + j] || cm((int)(2 * i), (int)j) != x[2 * i * N + j]) { what = name; pos = -4; } }
-                    break;
+                case 14: case 15: name = "R=m%B+A (lazy product with a map operand)"; R = m % B + A; got = R.data(); for (size_t i = 0; i < N; ++i) for (size_t j = 0; j < N; ++j) want[i * N + j] = mm(x, b, i, j) + a[i * N + j]; break;
                 case 16: name = "m=m2 (map of the same type over another buffer)"; m = m2; for (size_t p = 0; p < N * N; ++p) want[p] = buf2[p]; break;
                 case 17: name = "m=B (tensor)"; m = B; for (size_t p = 0; p < N * N; ++p) want[p] = b[p]; break;
                 case 18: { name = "m=f2 (map of another shape over another buffer)"; TensorMap<T,N * N> f2(buf2); m = f2; for (size_t p = 0; p < N * N; ++p) want[p] = buf2[p]; break; }
@@ -162,6 +158,33 @@ void run_rlin(unsigned seed) {
             // statements whose destination is not `m` must leave the buffer of `m` alone
             if (!what && got != buf && stmt != 10) for (size_t p = 0; p < N * N; ++p) if (!(buf[p] == x[p])) { what = name; pos = -2; }
         }
+        if (!what) std::printf(" | ok\n"); else std::printf(" | FAIL stmt=%s pos=%ld\n", what, pos);
+    });
+}
+
+// maps of const buffers (own instantiation: with FASTOR_DONT_VECTORISE an expression over TensorMap<const T> is rejected at
+// compile time — SIMDVector<const T,scalar>::store —, which must not hide the other linear-algebra statements)
+template<typename T, size_t N>
+void run_rconst(unsigned seed) {
+    guarded([&]{
+        std::printf("rconst cfg=%s T=%s n=%zu seed=%u", CFGNAME, tn<T>::n(), N, seed); std::fflush(stdout);
+        alignas(64) static unsigned char st1[256 + 256 * sizeof(T)];
+        T* buf = reinterpret_cast<T*>(st1 + 64 + sizeof(T) * (1 + seed % 7));
+        uint32_t s = seed * 2654435761u;
+        Tensor<T,N,N> B, R; std::vector<T> x(N * N), b(N * N);
+        for (size_t p = 0; p < N * N; ++p) { x[p] = buf[p] = (T)((int)(rnd(s) % 5) - 2); b[p] = B.data()[p] = (T)((int)(rnd(s) % 3) - 1); }
+        const T* cbuf = buf;
+        TensorMap<const T,N,N> cm(cbuf);
+        const char* what = nullptr; long pos = -1;
+        R = cm + B;
+        for (size_t p = 0; p < N * N && !what; ++p) if (!(R.data()[p] == (T)(x[p] + b[p]))) { what = "R=cm+B"; pos = (long)p; }
+        R = B * cm - cm;
+        for (size_t p = 0; p < N * N && !what; ++p) if (!(R.data()[p] == (T)(b[p] * x[p] - x[p]))) { what = "R=B*cm-cm"; pos = (long)p; }
+        Tensor<T,(N + 1) / 2,N> V = cm(seq(0, (int)N, 2), all);
+        for (size_t i = 0; i < (N + 1) / 2 && !what; ++i) for (size_t j = 0; j < N; ++j)
+            if (V(i, j) != x[2 * i * N + j] || cm((int)(2 * i), (int)j) != x[2 * i * N + j]) { what = "cm(seq,all) / cm(i,j)"; pos = (long)(2 * i * N + j); }
+        Tensor<T,N,N> Cp = cm;
+        for (size_t p = 0; p < N * N && !what; ++p) if (!(Cp.data()[p] == x[p]) || !(buf[p] == x[p])) { what = "Tensor = cm"; pos = (long)p; }
         if (!what) std::printf(" | ok\n"); else std::printf(" | FAIL stmt=%s pos=%ld\n", what, pos);
     });
 }
@@ -203,4 +226,4 @@ void run_rshape(unsigned seed) {
     });
 }
 } // namespace c20w
-using c20w::run_rwide; using c20w::run_rlin; using c20w::run_rshape;
+using c20w::run_rwide; using c20w::run_rlin; using c20w::run_rshape; using c20w::run_rconst;
